@@ -1657,7 +1657,7 @@ H_BUDGET = 10.0
 
 K_REFUSED = ('C18|result-differs-from-fresh-model-with-same-parameters'
              '|history=[refused-estimation_results-assignment(not-a-results-object),use]')
-X_VALUES = ('dict', 'none', 'int')
+X_VALUES = ('dict', 'none', 'int')     # thorough uses the first two
 
 
 def refused_value(kind, alph):
@@ -2242,7 +2242,12 @@ def _part_g(task, rec):
                             fails.setdefault(clause, {}).setdefault(variant, (f'{where}: {clause}: {detail}', case, dict(x=xref, dual=lamref),
                                                                              dict(x=out)))
                     # the data-frame entry point and the brute-force optimiser on the same problems (first labeling)
-                    if li == 0 and task.get('api') and len(answers) == len([e for e in draws if sols[(budget, e)] is not None]) and answers:
+                    coarse = any(sols[(budget, e)] is not None and g_well_conditioned(ref, sols[(budget, e)][1], e)[1] < 1e-3 for e in draws)
+                    if li == 0 and task.get('api') and coarse:
+                        # forecast() asks for a multiplier to 1e-10 (absolute), the one-draw call for 1e-13: with a multiplier
+                        # that small the two answers differ for the reason reported under K_TINY
+                        rec.count('skipped_api_comparison:multiplier-within-1e-3-of-its-lower-limit')
+                    elif li == 0 and task.get('api') and len(answers) == len([e for e in draws if sols[(budget, e)] is not None]) and answers:
                         active = tuple(goods)
                         eps_list = list(answers)
                         arr = np.zeros((len(eps_list), len(active)))
@@ -2479,14 +2484,16 @@ def tasks(tier, seed):
             for pset in ('T', ('D', 'B')[gi % 2]):
                 if n == 1 and pset == 'T':
                     continue     # one good: no tie
-                t.append(dict(part='g', goods=goods, og=og, pset=pset, row=gi % 2, labs=[nat, odd], budgets=[1.0, (10.0, BIG_BUDGET)[gi % 2]],
+                t.append(dict(part='g', goods=goods, og=og, pset=pset, row=gi % 2, labs=[nat, odd] if pset != 'T' else [(nat, odd)[gi % 2]],
+                              budgets=[1.0, (10.0, BIG_BUDGET)[gi % 2]],
                               draws=all_draws, variants=list(VARIANTS), shapes=[full_shape], api=True, nbf=1, seed=seed, sample=gi == 0))
             gi += 1
         for gi, og in enumerate((None, 0, 1, 2)):
             # three identical goods (T): all 27 draws; A and B identical (U): the 9 draws with eps_A = eps_B
             for pset, dr in (('T', [list(e) for e in ALL_DRAWS]), ('U', [[e0, e0, e2] for e0 in firsts for e2 in firsts])):
                 for vs in (VARIANTS[:2], VARIANTS[2:]):
-                    t.append(dict(part='g', goods=[0, 1, 2], og=og, pset=pset, row=gi % 2, labs=[(nat, odd)[gi % 2]], budgets=[1.0, 10.0],
+                    t.append(dict(part='g', goods=[0, 1, 2], og=og, pset=pset, row=gi % 2, labs=[(nat, odd)[gi % 2]],
+                                  budgets=[1.0, 10.0] if pset == 'T' else [(1.0, 10.0)[gi % 2]],
                                   draws=dr, variants=list(vs), shapes=[full_shape], api=pset == 'U', nbf=1, seed=seed))
         for si, sh in enumerate(SHIFTS_QUICK):
             for oi, og in enumerate((None, 1)):
@@ -2494,33 +2501,35 @@ def tasks(tier, seed):
                               draws=[list(ALL_DRAWS[(5 + 7 * j + 3 * si + oi) % 27]) for j in range(3)], variants=list(VARIANTS),
                               shapes=[full_shape], api=False, seed=seed))
     else:
-        g_labs = [quick_labs[i] for i in (0, 8, 3, 6, 9, 10)]
+        g_labs = [quick_labs[i] for i in (0, 8, 9)]
+        gi = 0
         for goods, og in subsets_with_og((1, 2)):
             n = len(goods)
             all_draws = [[e[goods.index(k)] if k in goods else 0.0 for k in range(3)] for e in itertools.product(firsts, repeat=n)]
-            for pset in ('D', 'A', 'B', 'T', 'U'):
+            for pset in ('D', 'B', 'T', 'U'):
                 if n == 1 and pset in ('T', 'U'):
                     continue
-                for ri in (0, 1):
-                    t.append(dict(part='g', goods=goods, og=og, pset=pset, row=ri, labs=g_labs, budgets=[0.125, 1.0, 10.0, BIG_BUDGET],
-                                  draws=all_draws, variants=list(VARIANTS), shapes=[full_shape, bare_shape, [False, True]], api=True, nbf=3,
-                                  seed=seed))
-        for og in (None, 0, 1, 2):
-            for pset in ('T', 'U'):
+                gi += 1
+                for bs in ([0.125, 10.0], [1.0, BIG_BUDGET]):
+                    t.append(dict(part='g', goods=goods, og=og, pset=pset, row=gi % 2, labs=g_labs, budgets=bs,
+                                  draws=all_draws, variants=list(VARIANTS), shapes=[full_shape, bare_shape], api=True, nbf=3, seed=seed))
+        for oi, og in enumerate((None, 0, 1, 2)):
+            for pi, pset in enumerate(('T', 'U')):
                 for ri in (0, 1):
                     for variant in VARIANTS:
-                        t.append(dict(part='g', goods=[0, 1, 2], og=og, pset=pset, row=ri, labs=[nat, odd, quick_labs[9]],
+                        t.append(dict(part='g', goods=[0, 1, 2], og=og, pset=pset, row=ri, labs=[nat, odd] if (oi + pi + ri) % 2 else [odd, nat],
                                       budgets=[0.125, 1.0, 10.0, BIG_BUDGET], draws=[list(e) for e in ALL_DRAWS], variants=[variant],
                                       shapes=[full_shape, bare_shape], api=True, nbf=3, seed=seed))
-        for sh in SHIFTS_THOROUGH:
-            for og in (None, 0, 1):
-                for ri in (0, 1):
-                    for e0 in firsts:
-                        t.append(dict(part='g', goods=[0, 1, 2], og=og, pset=f'D@{sh}', row=ri, labs=[nat, odd], budgets=[1.0, 100.0, 1e5],
-                                      draws=[[e0] + tl for tl in tails], variants=list(VARIANTS), shapes=[full_shape, bare_shape],
-                                      api=e0 == 0.0, nbf=2, seed=seed))
+        for si, sh in enumerate(SHIFTS_THOROUGH):
+            for oi, og in enumerate((None, 0, 1)):
+                for ei, e0 in enumerate(firsts):
+                    t.append(dict(part='g', goods=[0, 1, 2], og=og, pset=f'D@{sh}', row=(si + oi + ei) % 2, labs=[nat], budgets=[1.0, 100.0, 1e5],
+                                  draws=[[e0] + tl for tl in tails], variants=list(VARIANTS), shapes=[full_shape, bare_shape],
+                                  api=e0 == 0.0, nbf=2, seed=seed))
             for goods, og in subsets_with_og((1, 2)):
                 n = len(goods)
+                if n == 1 and og is not None:
+                    continue     # the model whose only good is the outside good: no multiplier at all
                 all_draws = [[e[goods.index(k)] if k in goods else 0.0 for k in range(3)] for e in itertools.product(firsts, repeat=n)]
                 t.append(dict(part='g', goods=goods, og=og, pset=f'B@{sh}', row=1, labs=[nat], budgets=[1.0, 100.0], draws=all_draws,
                               variants=list(VARIANTS), shapes=[full_shape], api=False, seed=seed))
@@ -2534,7 +2543,7 @@ def tasks(tier, seed):
             for first in h_ops():
                 t.append(dict(part='h', cfg=cfg, lab=lab, prefix=[list(first)], depth=h_depth, seed=seed))
         # the same histories with refused assignments mixed in (quick: the dictionary of values; thorough: also None, a number)
-        refused = list(X_VALUES[:1] if tier == 'quick' else X_VALUES)
+        refused = list(X_VALUES[:1] if tier == 'quick' else X_VALUES[:2])
         if tier == 'quick' and cfg['og'] != (None, 1)[VARIANTS.index(cfg['variant']) % 2]:
             continue     # quick: one configuration per variant, with / without an outside good alternating
         for first in h_ops(refused):
